@@ -59,6 +59,7 @@ def dispatch (line : String) : String :=
   | "pc" :: rest => handlePatCompile rest
   | "sem" :: rest => handleSem rest
   | "cgen" :: rest => handleCgen rest
+  | "vmrun" :: rest => handleVmRun rest
   | "prelude" :: rest => handlePrelude rest
   | "trylower" :: rest => handleTryLower rest
   | "analysis" :: rest => handleAnalysis rest
